@@ -27,6 +27,31 @@ pub struct JunosLocal {
 impl JunosLocal {
     #[tracing::instrument(skip_all, level = "debug")]
     pub(crate) async fn connect() -> Result<Self, Error> {
+        #[cfg(bgpfu_verif)]
+        if let Some(cli_path) = std::env::var_os("BGPFU_VERIF_CLI_PATH") {
+            // verification hook: spawn a stand-in for the Junos `cli` binary.
+            let mut child = Command::new(cli_path)
+                .stdin(Stdio::piped())
+                .stdout(Stdio::piped())
+                .stderr(Stdio::piped())
+                .args(CLI_ARGS)
+                .kill_on_drop(true)
+                .spawn()?;
+            let stdout = child
+                .stdout
+                .take()
+                .ok_or_else(|| io::Error::other("failed to handle for child stdin"))?;
+            let stdin = child
+                .stdin
+                .take()
+                .ok_or_else(|| io::Error::other("failed to handle for child stdin"))?;
+            let handle = Arc::new(child);
+            return Ok(Self {
+                handle,
+                stdin,
+                stdout,
+            });
+        }
         let mut child = Command::new(CLI_PATH)
             .stdin(Stdio::piped())
             .stdout(Stdio::piped())
